@@ -20,6 +20,8 @@
 import enum
 from typing import Any
 
+import dns.exception
+
 # Standard DNS flags
 
 
@@ -64,9 +66,16 @@ def _from_text(text: str, enum_class: Any) -> int:
         token = t.upper()
         if token.startswith("FLAG") and token[4:].isdecimal():
             # An unnamed flag, rendered by _to_text() as FLAGn (see below).
-            flags |= 1 << int(token[4:])
+            bit = int(token[4:])
+            if bit > 15:
+                # Both the header flags and the EDNS flags are 16-bit fields.
+                raise dns.exception.SyntaxError(f"flag bit {bit} is out of range")
+            flags |= 1 << bit
         else:
-            flags |= enum_class[token]
+            try:
+                flags |= enum_class[token]
+            except KeyError:
+                raise dns.exception.SyntaxError(f"unknown flag '{t}'")
     return flags
 
 
